@@ -52,7 +52,6 @@ type Env struct {
 	Corpus  map[string]*CorpusEntry
 	Paths   []string // admitted corpus packages
 	GoRoot  string
-	onC     func(*minicl.Compiler)
 }
 
 type CorpusEntry struct {
@@ -116,7 +115,7 @@ func (e *Env) admit(p *prog.Program) *CorpusEntry {
 	ce := &CorpusEntry{Prog: p, DropUnits: map[string]bool{}, DropBodies: map[string]bool{}}
 	for round := 0; round < 60; round++ {
 		ce.Rounds = round + 1
-		r := e.build(p, &Front{}, nil, ce)
+		r := e.build(p, &Front{}, nil, ce, nil)
 		if r.LoadErr != nil {
 			return nil
 		}
@@ -180,12 +179,10 @@ func (e *Env) BuildWith(p *prog.Program, f *Front, hooks *minicl.Hooks, onC func
 		}
 		p = ce.Prog
 	}
-	e.onC = onC
-	defer func() { e.onC = nil }()
-	return e.build(p, f, hooks, ce)
+	return e.build(p, f, hooks, ce, onC)
 }
 
-func (e *Env) build(p *prog.Program, f *Front, hooks *minicl.Hooks, ce *CorpusEntry) *Result {
+func (e *Env) build(p *prog.Program, f *Front, hooks *minicl.Hooks, ce *CorpusEntry, onC func(*minicl.Compiler)) *Result {
 	r := &Result{Files: map[string][]byte{}, WriteErr: map[string]string{}, FaultFired: map[string]int{}}
 	fset := token.NewFileSet()
 	r.Fset = fset
@@ -214,8 +211,8 @@ func (e *Env) build(p *prog.Program, f *Front, hooks *minicl.Hooks, ce *CorpusEn
 	}
 	c := minicl.New(fset, files, tp, info, opts)
 	r.C = c
-	if e.onC != nil {
-		e.onC(c)
+	if onC != nil {
+		onC(c)
 	}
 	n := len(c.Syms())
 	r.Units = n
